@@ -174,7 +174,10 @@ func (s *Server) Serve(l *coapNet.UDPConn) error {
 		}
 		err = cc.Process(cm, buf)
 		if err != nil {
-			s.closeConnection(cc)
+			// A datagram that is no CoAP message (or is too large) is rejected by ignoring it (RFC 7252 4.2, 4.3).
+			// There is no stream to resynchronise: closing the peer's connection would only throw away its
+			// de-duplication state and its observations - on behalf of anybody who can send a datagram with
+			// the peer's source address.
 			s.cfg.Errors(fmt.Errorf("%v: cannot process packet: %w", cc.RemoteAddr(), err))
 		}
 	}
